@@ -9,6 +9,7 @@ Requests:
   uint_value <strict> <nbits> obj        safe_int obj | safe_float obj | safe_rect_list obj
   pagetree <strict> <catalog dict>       get_widths <strict> <array>
   xref <strict> <start> <k> (<pos> <X|obj> <X|obj>)*k
+  ra_calls obj                           getobj calls of resolve_all (non-STRICT) on the current graph (round 6)
   calls obj                              getobj calls of resolve1 on the current graph, and the proved bound (round 6)
   sdec <k> <namehex>*k <hex>             PDFStream.decode with /Filter [names], no DecodeParms (round 6)
   pred png|tiff <colors> <columns> <bpc> <hex>   predictors of Model/Filters.lean on arbitrary parameters (round 6)
@@ -201,6 +202,10 @@ def step (g : Graph) (line : String) : Graph × String :=
     match decoder name, bytesOfHex h with
     | some f, some d => (g, decReply (f d))
     | _, _ => (g, "bad-op")
+  | "ra_calls" :: rest =>
+    match parseObj rest with
+    | some (x, []) => (g, "V " ++ toString (resolveAllCalls g x))
+    | _ => (g, "bad-op")
   | "calls" :: rest =>
     match parseObj rest with
     | some (x, []) => (g, "V " ++ toString (resolve1Calls g x) ++ " " ++ toString ((objids g).length + 1))
